@@ -424,7 +424,61 @@ def symmetrize_facts(tree):
                 back_warp = ast.unparse(kw['warp']) if 'warp' in kw else 'default'
     if side is None or back_warp is None or center is None:
         raise ValueError(f'{who}: side test / flip back / centre not found')
-    return {'side': side, 'back_warp': back_warp, 'center': center, 'rewinds': _rewinds(fn), 'helper': _helper_expr(fn, who)}
+    return {'side': side, 'back_warp': back_warp, 'center': center, 'rewinds': _rewinds(fn), 'helper': _helper_expr(fn, who),
+            'extent': _symm_extent(fn, who)}
+
+
+def _bbox_cell(e):
+    """`bbox[r, c]` / `bbox[r][c]` -> (r, c)"""
+    if isinstance(e, ast.Subscript) and isinstance(e.value, ast.Name) and e.value.id == 'bbox' \
+            and isinstance(e.slice, ast.Tuple) and len(e.slice.elts) == 2:
+        return tuple(int(ast.literal_eval(x)) for x in e.slice.elts)
+    if isinstance(e, ast.Subscript) and isinstance(e.value, ast.Subscript) and isinstance(e.value.value, ast.Name) \
+            and e.value.value.id == 'bbox':
+        return (int(ast.literal_eval(e.value.slice)), int(ast.literal_eval(e.slice)))
+    return None
+
+
+def _symm_extent(fn, who):
+    """per bounding-box layout: the cells read as (x_min, x_max), where `center = MIN + (MAX - MIN) / 2`"""
+    cen = None
+    for n in ast.walk(fn):
+        if isinstance(n, ast.Assign) and len(n.targets) == 1 and isinstance(n.targets[0], ast.Name) and n.targets[0].id == 'center':
+            cen = n.value
+    ok = isinstance(cen, ast.BinOp) and isinstance(cen.op, ast.Add) and isinstance(cen.right, ast.BinOp) \
+        and isinstance(cen.right.op, ast.Div) and isinstance(cen.right.right, ast.Constant) and cen.right.right.value == 2 \
+        and isinstance(cen.right.left, ast.BinOp) and isinstance(cen.right.left.op, ast.Sub) \
+        and ast.unparse(cen.left) == ast.unparse(cen.right.left.right)
+    if not ok:
+        raise ValueError(f'{who}: centre is not of the form MIN + (MAX - MIN) / 2: {ast.unparse(cen) if cen is not None else None}')
+    lo_e, hi_e = cen.left, cen.right.left.left
+    if _bbox_cell(lo_e) is not None:
+        # one expression for every layout
+        return [('any', _bbox_cell(lo_e), _bbox_cell(hi_e))]
+    if not (isinstance(lo_e, ast.Name) and isinstance(hi_e, ast.Name)):
+        raise ValueError(f'{who}: cannot tell where the x-extent comes from: {ast.unparse(cen)}')
+    out = []
+    for n in ast.walk(fn):
+        if isinstance(n, ast.If) and isinstance(n.test, ast.Compare) and len(n.test.ops) == 1 and isinstance(n.test.ops[0], ast.Eq) \
+                and ast.unparse(n.test.left) == 'bbox.shape':
+            shape = ast.unparse(n.test.comparators[0])
+            cells = {}
+            for st in n.body:
+                if isinstance(st, ast.Assign) and len(st.targets) == 1:
+                    t, v = st.targets[0], st.value
+                    if isinstance(t, ast.Tuple) and isinstance(v, ast.Tuple):
+                        for a, b in zip(t.elts, v.elts):
+                            if isinstance(a, ast.Name):
+                                cells[a.id] = _bbox_cell(b)
+                    elif isinstance(t, ast.Name):
+                        cells[t.id] = _bbox_cell(v)
+            if lo_e.id in cells or hi_e.id in cells:
+                if cells.get(lo_e.id) is None or cells.get(hi_e.id) is None:
+                    raise ValueError(f'{who}: x-extent for layout {shape} not read from two cells of bbox')
+                out.append((shape, cells[lo_e.id], cells[hi_e.id]))
+    if not out:
+        raise ValueError(f'{who}: no per-layout x-extent found')
+    return sorted(out)
 
 
 # ------------------------------------------------------------------------------------------------ image path
@@ -537,6 +591,9 @@ def generate(repo: Path):
     L.append('def symmetrizeRewinds : List String := [' + ', '.join(lstr(s) for s in sy['rewinds']) + ']')
     L.append('/-- `is_left = x[:, <col>] <cmp> center` -/')
     L.append(f'def symmSideTest : Cmp × Nat := ({CMP[sy["side"][0]]}, {int(sy["side"][1])})')
+    L.append('/-- per bounding-box layout: the cells `(row, col)` of `bbox` read as `(x_min, x_max)` for the midplane -/')
+    L.append('def symmExtent : List (String × (Nat × Nat) × (Nat × Nat)) := ['
+             + ', '.join(f'({lstr(a)}, ({b[0]}, {b[1]}), ({c[0]}, {c[1]}))' for a, b, c in sy['extent']) + ']')
     L.append(f'def symmSideRhs : String := {lstr(sy["side"][2])}')
     L.append(f'def symmCenter : String := {lstr(sy["center"])}')
     L.append('/-- `warp=` of the flip back -/')
